@@ -442,21 +442,10 @@ func wake() {
 //go:norace
 func taskDone(me int) {
 	k.status[me] = tsDone
-	// a task that ends while others are blocked (e.g. it panicked holding a lock) must not strand them silently
+	// blocked tasks get another look at what they wait for (the ended task may have released it on its way out);
+	// one that is still blocked with nobody left to run ends in block() with the deadlock verdict
+	wake()
 	next := k.choose(true)
-	if next < 0 {
-		blocked := false
-		for i := 0; i < k.ntasks; i++ {
-			if k.status[i] == tsBlocked {
-				blocked = true
-				k.status[i] = tsRunnable
-			}
-		}
-		if blocked {
-			k.deadlock = true
-			next = k.choose(true)
-		}
-	}
 	if next >= 0 {
 		k.record(next)
 	}
